@@ -3,6 +3,7 @@ package checks
 import (
 	"bytes"
 	"fmt"
+	"math/big"
 	"math/rand"
 	"time"
 
@@ -58,7 +59,9 @@ var c04IntFields = []intField{
 	{"trx.supplementary", func(v *accountant.Vertex) uint64 { return v.Transaction.Spice.SupplementaryCurrency }, func(v *accountant.Vertex, x uint64) { v.Transaction.Spice.SupplementaryCurrency = x }},
 }
 
-func sameSignedFields(a, b *accountant.Vertex) bool { return ledger.Fingerprint(a) == ledger.Fingerprint(b) }
+func sameSignedFields(a, b *accountant.Vertex) bool {
+	return ledger.Fingerprint(a) == ledger.Fingerprint(b)
+}
 
 // c04Mutants derives mutants of base; other is a second valid vertex (for swaps), foreign another wallet.
 func c04Mutants(rng *rand.Rand, base, other *accountant.Vertex, foreign *ledger.Actor, thorough bool) []mutant {
@@ -240,7 +243,7 @@ func c04Worker(w *core.WorkerCtx) {
 	desc := fmt.Sprintf("c04 mutation engine seed=%d batch=%d", w.Seed, w.Batch)
 	world := ledger.NewWorld(rng, w.R, []string{"C04"}, allSnapOracles, desc)
 	defer world.Close()
-	d, err := ledger.Setup(world, ledger.Profile{Nodes: 3, Users: 4, SupplyClass: []int{0, 1, 3, 5}[w.Batch%4], Delivery: "lockstep", PBoundary: 0.3})
+	d, err := ledger.Setup(world, ledger.Profile{Nodes: 3, Users: 4, SupplyClass: []int{0, 3, 5}[w.Batch%3], Delivery: "lockstep", PBoundary: 0.3})
 	if err != nil {
 		w.R.Inconc("setup failed: " + err.Error())
 		return
@@ -249,10 +252,26 @@ func c04Worker(w *core.WorkerCtx) {
 	fresh, holder, parker := world.Nodes[0], world.Nodes[1], world.Nodes[2]
 	u := world.Users
 	foreign := ledger.NewActor("foreign")
-	// a little valid history known to every node
+	// a little valid history known to every node: every user gets an eighth of the supply, and the harness keeps
+	// the books so that no base vertex overdraws (the supply classes near 2^64 are left out: inflow to the genesis
+	// receiver would overflow its gross inflow, which the code refuses by design)
+	fund := new(big.Int).Div(ledger.Val(ledger.SupplyClasses[[]int{0, 3, 5}[w.Batch%3]]), big.NewInt(8))
+	left := map[string]*big.Int{}
+	for i := 1; i < len(u); i++ {
+		left[u[i].Addr] = new(big.Int).Set(fund)
+	}
+	afford := func(from *ledger.Actor, want spice.Melange) spice.Melange {
+		l := left[from.Addr]
+		wv := ledger.Val(want)
+		if l.Cmp(wv) < 0 {
+			wv = new(big.Int).Div(l, big.NewInt(2))
+		}
+		l.Sub(l, wv)
+		return ledger.FromVal(wv)
+	}
 	var lastTip accountant.Vertex
 	for i := 1; i < len(u); i++ {
-		t := world.NewTrx(u[0], u[i].Addr, spice.Melange{Currency: 2, SupplementaryCurrency: ledger.E18 / 2}, nil)
+		t := world.NewTrx(u[0], u[i].Addr, ledger.FromVal(fund), nil)
 		v, err := world.Propose(fresh, &t, "fund")
 		if err != nil {
 			w.R.Inconc("funding failed")
@@ -284,6 +303,15 @@ func c04Worker(w *core.WorkerCtx) {
 			data = []byte{0, 1, 2, 0xff, 0xfe}
 		case "self-transfer":
 			to = from
+		}
+		amt = afford(from, amt)
+		if amt.Currency == 0 && amt.SupplementaryCurrency == 0 && len(data) == 0 {
+			data = []byte("out of funds")
+		}
+		if to != from {
+			if l, ok := left[to.Addr]; ok {
+				l.Add(l, ledger.Val(amt))
+			}
 		}
 		t := world.NewTrx(from, to.Addr, amt, data)
 		if kind == "countersigned" {
@@ -430,8 +458,8 @@ func c04Addresses(w *core.WorkerCtx) {
 func init() {
 	core.Register(&core.Check{
 		Spec: core.Spec{
-			Prop: "C04",
-			Rule: "Mutation engine over valid base vertices (spice, contract, countersigned, boundary amount, data+spice, self transfer; re-created on a growing history). Mutations: 1/2/k bit flips, byte replacement, zeroing, truncation/extension/emptying of every byte-valued field; +-1..2^63 and bit flips on weight, both timestamps and both amount parts; bytes moved across subject|data, data|issuer, issuer|receiver boundaries; every field swapped with another valid vertex; signatures/addresses of a foreign wallet (wrong key over the right message, right key over another message); receiver signature stripped, replaced, forged, added. Identity mutations are discarded. Every mutant is offered through AddLeaf to three nodes: one that knows the parents but never saw the original, one that holds the original, one that has the original parked behind its parent: it must be refused, leave the ledger digest unchanged and not be parked. Addresses: every base58 substitution, transposition, case change, deletion, insertion at sampled positions, leading-1 insertion/removal must fail to resolve or resolve to the identical key. Non-trivial = every mutant; distinct by (field, mutation kind, node state).",
+			Prop:        "C04",
+			Rule:        "Mutation engine over valid base vertices (spice, contract, countersigned, boundary amount, data+spice, self transfer; re-created on a growing history). Mutations: 1/2/k bit flips, byte replacement, zeroing, truncation/extension/emptying of every byte-valued field; +-1..2^63 and bit flips on weight, both timestamps and both amount parts; bytes moved across subject|data, data|issuer, issuer|receiver boundaries; every field swapped with another valid vertex; signatures/addresses of a foreign wallet (wrong key over the right message, right key over another message); receiver signature stripped, replaced, forged, added. Identity mutations are discarded. Every mutant is offered through AddLeaf to three nodes: one that knows the parents but never saw the original, one that holds the original, one that has the original parked behind its parent: it must be refused, leave the ledger digest unchanged and not be parked. Addresses: every base58 substitution, transposition, case change, deletion, insertion at sampled positions, leading-1 insertion/removal must fail to resolve or resolve to the identical key. Non-trivial = every mutant; distinct by (field, mutation kind, node state).",
 			Assumptions: []string{"ed25519 and sha256 are not broken; a vertex completely re-sealed by another node is a new vertex, not a mutation", ledgerAssume},
 			MinEvals:    3000, MinNontriv: 100,
 		},
